@@ -430,7 +430,8 @@ impl<'p, C: SimCfg> World<'p, C> {
             for (j, other) in plan.nodes.iter().enumerate() {
                 let watched = match (&ns.kind, &other.kind) {
                     _ if i == j => false,
-                    (NodeKind::Peer { .. }, NodeKind::Peer { .. }) => true,
+                    // a peer only has an endpoint towards peers that own at least one player
+                    (NodeKind::Peer { .. }, NodeKind::Peer { locals }) => !locals.is_empty(),
                     (NodeKind::Peer { .. }, NodeKind::Spectator { host, .. }) => *host == i,
                     (NodeKind::Spectator { host, .. }, NodeKind::Peer { .. }) => *host == j,
                     _ => false,
@@ -995,8 +996,57 @@ impl<'p, C: SimCfg> World<'p, C> {
                         return;
                     }
                 }
-                Api::AddInputWrongHandle { .. } | Api::AdvanceMissingInput | Api::NetStats { .. } => {
-                    // handled by the C16 misuse oracle (see oracles.rs); executed here so the twin sees the same instants
+                Api::AdvanceMissingInput | Api::Poll => {
+                    // advance_frame() with an input missing must fail with InvalidRequest (NotSynchronized
+                    // before the handshake) and do nothing but poll; the twin polls at the same instant.
+                    // Only meaningful when no input is pending from a stalled call.
+                    let pending = s.verif_buffer_sizes().pending_local_inputs;
+                    let misuse = matches!(call, Api::AdvanceMissingInput) && pending == 0 && !self.nodes[i].locals.is_empty();
+                    let locals = self.nodes[i].locals.clone();
+                    let Sess::Peer(s) = &mut self.nodes[i].sess else { continue };
+                    let r = if misuse {
+                        if locals.len() > 1 {
+                            let u = s.current_frame();
+                            let _ = s.add_local_input(locals[0], input_value(self.plan, locals[0], u, 0));
+                        }
+                        guarded(|| s.advance_frame().map(|r| r.len()))
+                    } else {
+                        guarded(|| {
+                            s.poll_remote_clients();
+                            Err(GgrsError::NotSynchronized)
+                        })
+                    };
+                    let state_after = s.current_state();
+                    self.probes.polls += 1;
+                    match r {
+                        Err(p) => {
+                            self.leave(i);
+                            self.panic_violation(i, "advance_frame() with a missing input", p);
+                            return;
+                        }
+                        Ok(res) if misuse => {
+                            *self.probes.extra.entry("misuse_advance_missing_input").or_insert(0) += 1;
+                            let ok = match (&res, state_after) {
+                                (Err(GgrsError::InvalidRequest { .. }), SessionState::Running) => true,
+                                (Err(GgrsError::NotSynchronized), SessionState::Synchronizing) => true,
+                                _ => false,
+                            };
+                            if !ok {
+                                let g = self.nodes[i].game.g;
+                                self.violate("c16.misuse_not_rejected", i, g, format!("advance_frame() with a local input missing returned {res:?} in state {state_after:?}"));
+                            }
+                        }
+                        Ok(_) => {}
+                    }
+                    self.leave(i);
+                    self.after_poll(i);
+                    if !self.viol.is_empty() {
+                        return;
+                    }
+                    self.enter(i);
+                }
+                Api::AddInputWrongHandle { .. } | Api::NetStats { .. } | Api::DisconnectMisuse { .. } | Api::SetDelayMisuse { .. } => {
+                    *self.probes.extra.entry("misuse_calls").or_insert(0) += 1;
                     crate::oracles::misuse_call::<C>(s, &call, &mut self.viol, self.now, i);
                 }
             }
@@ -1717,6 +1767,9 @@ pub fn ev_name(e: &Ev) -> &'static str {
 pub fn run_plan(plan: &Plan) -> Result<RunOut, String> {
     if matches!(plan.mode, Mode::DecodeSweep { .. } | Mode::DecodeMutations { .. }) {
         return Ok(crate::sweep::run(plan));
+    }
+    if let Mode::Builder { calls, start } = &plan.mode {
+        return Ok(crate::builder::run(plan, calls, start));
     }
     if let Mode::SyncTest { check_distance, frames, expect_reject } = plan.mode {
         return if plan.cfg.predict_default {
